@@ -168,4 +168,34 @@ deriving DecidableEq, Repr
 /-- for the per-input taproot signature hashes `digests` of one transaction -/
 def btcSignings (digests : List Bytes) : List SigningStart := digests.map fun d => ⟨toHex d, d⟩
 
+/-! ### Bitcoin: collecting the per-input signatures and attaching them (`watchExecution`, `sendTx`) -/
+
+/-- outcome of the collection loop over a finite list of arrivals -/
+inductive Collected where
+  | sent (witnesses : List (List Bytes))   -- complete: the transaction goes out with these witness stacks, input by input
+  | waiting                                -- not complete yet (the loop keeps waiting, in the end the time-out)
+  | panic                                  -- `signatures[signatureData.Id]` out of range
+deriving DecidableEq, Repr
+
+/-- `signaturesFilled`: no slot is empty -/
+def filled (slots : List Bytes) : Bool := slots.all (· ≠ [])
+
+/-- `sendTx`: input `i` gets its OWN one-element witness stack holding `signatures[i]` -/
+def witnesses (slots : List Bytes) : List (List Bytes) := slots.map fun s => [s]
+
+/-- the loop of `watchExecution`: a `nil` result is skipped; a result is stored in the slot NAMED BY ITS Id (arrival order
+    plays no part, a repeated result overwrites its own slot); as soon as every slot is filled the transaction is sent -/
+def collectFrom (slots : List Bytes) : List (Option (Nat × Bytes)) → Collected
+  | [] => .waiting
+  | none :: r => collectFrom slots r
+  | some (id, s) :: r =>
+    if id < slots.length then
+      let slots' := slots.set id s
+      if filled slots' then .sent (witnesses slots') else collectFrom slots' r
+    else .panic
+
+/-- for a transaction with `n` inputs: `signatures := make([]taproot.Signature, n)` -/
+def collect (n : Nat) (arrivals : List (Option (Nat × Bytes))) : Collected :=
+  collectFrom (List.replicate n []) arrivals
+
 end Sygma.C08
